@@ -56,7 +56,7 @@ pub fn registry() -> Vec<(&'static str, fn(&mut src::Tape))> {
     #[cfg(feature = "c04")]
     { v.extend_from_slice(c04::BASE); v.extend_from_slice(c04::LAT_ALL); v.extend_from_slice(c04::LON_ALL); }
     #[cfg(feature = "c05")]
-    { v.extend_from_slice(c05::BASE); v.extend_from_slice(c05::LON_ALL); }
+    { v.extend_from_slice(c05::BASE); v.extend_from_slice(c05::LATZ_ALL); v.extend_from_slice(c05::LON_ALL); }
     #[cfg(feature = "c07")]
     v.extend_from_slice(c07::ALL);
     #[cfg(feature = "c08")]
